@@ -443,7 +443,7 @@ class BitArray(Bits):
         if not isinstance(pos, abc.Iterable):
             pos = (pos,)
         v = 1 if value else 0
-        if isinstance(pos, range) and pos.step > 0 and pos.start >= 0 and pos.stop <= len(self):
+        if isinstance(pos, range) and pos.step > 0 and pos.start >= 0 and 0 <= pos.stop <= len(self):
             # Fast path. Other ranges (negative values, negative steps or positions that are out of range)
             # don't map directly on to a slice, so are handled one position at a time below.
             self._bitstore.__setitem__(slice(pos.start, pos.stop, pos.step), v)
